@@ -36,6 +36,13 @@ RULES = {
     "Z-ser": "rules_serde.rule_z_ser",
     "Z-de": "rules_serde.rule_z_de",
     "H-agree": "rules_hasher.rule_h_agree",
+    "E9-pol": "rules_pred.rule_e9_polarity",
+    "R-lazy": "rules_pred.rule_r_lazy_drop",
+    "L-handle": "rules_handle.rule_l_handle",
+    "L-use": "rules_handle.rule_l_use",
+    "N-occ": "rules_handle.rule_n_occ",
+    "N-ins": "rules_handle.rule_n_ins",
+    "N-repl": "rules_handle.rule_n_repl",
     "S-grow": "rules_size.rule_s_grow",
     "S-shrink": "rules_size.rule_s_shrink",
     "S-reserve": "rules_size.rule_s_reserve",
@@ -48,14 +55,14 @@ PROPERTY_RULES = {
     "C02": ["W-bound", "W-reentry", "W-read"],
     "C03": ["M-carry", "T-mover", "T-free", "P-only", "T-grow"],
     "C04": ["S-grow", "S-shrink", "S-reserve", "T-grow", "M-carry", "T-mover", "P-only"],
-    "C05": ["P-rem", "P-fill", "P-only", "P-new", "K-new", "K-use", "K-field", "T-grow", "V-unsafe", "V-unreach", "V-impl"],
+    "C05": ["P-rem", "P-fill", "P-only", "P-new", "K-new", "K-use", "K-field", "L-use", "L-handle", "T-grow", "V-unsafe", "V-unreach", "V-impl"],
     "C06": ["V-own", "B-clear", "B-drain", "B-into", "P-rem", "P-fill"],
-    "C07": ["P-rem", "P-fill", "V-own", "H-agree"],
+    "C07": ["P-rem", "P-fill", "E9-pol", "V-own", "H-agree"],
     "C08": ["B-comp", "B-drain", "B-into", "K-field"],
-    "C09": ["P-rem", "K-use"],
+    "C09": ["E9-pol", "R-lazy", "P-rem", "K-use", "B-comp"],
     "C10": ["O-wrap", "S-reserve", "S-grow", "S-ctor", "S-shrink"],
     "C11": ["B-clear", "H-agree"],
-    "C12": ["K-new", "K-use", "P-rem", "H-agree"],
+    "C12": ["N-occ", "N-ins", "N-repl", "L-use", "L-handle", "K-new", "K-use", "P-rem", "P-fill", "H-agree"],
     "C13": ["D-set", "E9-set", "E9-bool"],
     "C14": ["E9-bool", "H-agree"],
     "C15": ["K-new", "K-field", "B-comp", "V-impl"],
